@@ -42,7 +42,7 @@ NB_PEG = [
     ('nb_peg', 'nb_peg_repminfail', '((PUSH(a) ~ (PUSH(b) ~ c){2,}) | a) ~ PEEK_ALL; all strings<=8 chars over {a,b,c}', 'q'),
     ('nb_peg', 'nb_peg_repmmfail', '((PUSH(a) ~ (PUSH(b) ~ c){2,3}) | a) ~ PEEK_ALL; all strings<=8 chars over {a,b,c}', 'q'),
 ]
-NB_PEG = [(t[0], t[1], t[2], 'Q') for t in NB_PEG] + [(t[0], t[1], t[2] + ' — bound raised by 2 characters', 't', {'VERIF_NB_EXTRA': '2'}) for t in NB_PEG]
+NB_PEG = [(t[0], t[1], t[2], 'Q') for t in NB_PEG] + [(t[0], t[1], t[2] + ' — bound raised by 3 characters', 't', {'VERIF_NB_EXTRA': '3'}) for t in NB_PEG]
 NB_PEG_STACK = [t for t in NB_PEG if t[1] in ('nb_peg_push_pop', 'nb_peg_pred', 'nb_peg_rep_choice', 'nb_peg_slice', 'nb_peg_bal', 'nb_peg_optpush', 'nb_peg_reppush', 'nb_peg_repbal', 'nb_peg_predmut', 'nb_peg_repminfail', 'nb_peg_repmmfail')]
 NB_SLICES = ('nb_slices', 'nb_slices', 'all stacks of depth<=4 over {a,bb} x all PEEK[a..b], PEEK[a..] with a,b in -6..=6 x all inputs<=5 chars', 'q')
 NB_PEG_D1 = ('nb_peg', 'nb_peg_d1', 'PUSH(a) ~ ((POP? ~ b) | PEEK); all strings<=6 chars over {a,b}', 'q')
